@@ -9,9 +9,11 @@ import ChessVerif.Proofs.Minimax.ABExact
 namespace Chess.Proofs.Minimax
 open Chess Chess.Spec Chess.Engine Chess.MoveGen Chess.Proofs.Search
 
+variable (pos : Bool)
+
 /-! ### minimax values are never sentinels -/
 
-theorem value_NS : ∀ fuel old mv rem cur list, NSc (value fuel old mv rem cur list) := by
+theorem value_NS : ∀ fuel old mv rem cur list, NSc (value pos fuel old mv rem cur list) := by
   intro fuel
   induction fuel with
   | zero =>
@@ -36,19 +38,19 @@ theorem value_NS : ∀ fuel old mv rem cur list, NSc (value fuel old mv rem cur 
     split
     · exact NS_raw 0
     have fin : ∀ (c : Bool) (moves : MoveGen), (c = false → mvsOf moves ≠ []) →
-        NSc (if c = true then eval (old.moveUnchecked mv)
+        NSc (if c = true then eval pos (old.moveUnchecked mv)
           else best (old.moveUnchecked mv).turn
-            ((mvsOf moves).map (fun m => value fuel (old.moveUnchecked mv) m (rem - 1) (cur + 1) list'))) := by
+            ((mvsOf moves).map (fun m => value pos fuel (old.moveUnchecked mv) m (rem - 1) (cur + 1) list'))) := by
       intro c moves hc
       cases c with
       | true =>
-        obtain ⟨x, hx⟩ := eval_raw (old.moveUnchecked mv)
+        obtain ⟨x, hx⟩ := eval_raw pos (old.moveUnchecked mv)
         rw [if_pos rfl, hx]
         exact NS_raw x
       | false =>
         rw [if_neg (by decide)]
         have hmem := best_nonempty_mem (old.moveUnchecked mv).turn
-          ((mvsOf moves).map (fun m => value fuel (old.moveUnchecked mv) m (rem - 1) (cur + 1) list'))
+          ((mvsOf moves).map (fun m => value pos fuel (old.moveUnchecked mv) m (rem - 1) (cur + 1) list'))
           (by
             intro h
             rw [List.map_eq_nil_iff] at h
@@ -72,7 +74,7 @@ theorem value_NS : ∀ fuel old mv rem cur list, NSc (value fuel old mv rem cur 
 
 /-- the minimax value of a root move at `depth` -/
 abbrev rootVal (b : Board) (tf : ThreeFold) (depth : Nat) (m : Move) : Score :=
-  value (depth + 40) b m depth 1 (BoardList.new b tf)
+  value pos (depth + 40) b m depth 1 (BoardList.new b tf)
 
 /-- invariant of the pass state: `V` is the best minimax value of the root moves tried so far -/
 def RInv (b : Board) (pc : Color) (V : Score) (p : Pass) : Prop :=
@@ -87,8 +89,8 @@ theorem rinv_pass0 (b : Board) (pc : Color) : RInv b pc (worst pc) (pass0 pc) :=
 theorem rootMove_exact (k : Nat) (b : Board) (hwf : b.WF = true) (pc : Color) (depth : Nat) (tf : ThreeFold)
     (mv : Move) (p : Pass) (st : St) (p' : Pass) (st' : St) (V : Score)
     (hmv : mv ∈ mvsOf (MoveGen.legals b)) (hI : RInv b pc V p)
-    (hr : rootMove k b pc depth tf mv p st = (some p', st')) :
-    RInv b pc (bstep pc V (rootVal b tf depth mv)) p' := by
+    (hr : rootMove pos k b pc depth tf mv p st = (some p', st')) :
+    RInv b pc (bstep pc V (rootVal pos b tf depth mv)) p' := by
   obtain ⟨i1, i2, i3, i4, i5⟩ := hI
   rw [rootMove_eq] at hr
   split at hr
@@ -102,16 +104,16 @@ theorem rootMove_exact (k : Nat) (b : Board) (hwf : b.WF = true) (pc : Color) (d
     rcases i4 with h | h
     · rw [h]; exact not_top_leC_worst pc
     · exact not_top_leC pc V h
-  have hA := alphabeta_exact k (depth + 40) b mv depth 1 p.alpha p.beta (BoardList.new b tf) st
+  have hA := alphabeta_exact pos k (depth + 40) b mv depth 1 p.alpha p.beta (BoardList.new b tf) st
     (succ_WF b hwf mv hmv) hw (by
-      have : ¬ (rootAB k b depth tf mv p st).2.polls ≥ k := hlt
-      show (rootAB k b depth tf mv p st).2.polls ≤ k
+      have : ¬ (rootAB pos k b depth tf mv p st).2.polls ≥ k := hlt
+      show (rootAB pos k b depth tf mv p st).2.polls ≤ k
       omega)
   rw [agree_iff pc, i2, i3] at hA
-  have hst := root_step' pc V (rootVal b tf depth mv) (rootAB k b depth tf mv p st).1
-    (loC pc (accept pc p mv (rootAB k b depth tf mv p st).1).alpha (accept pc p mv (rootAB k b depth tf mv p st).1).beta)
-    (bstep pc V (rootVal b tf depth mv)) (accept pc p mv (rootAB k b depth tf mv p st).1).score
-    i4 (value_NS _ _ _ _ _ _) hA rfl (by rw [← i1]; rfl)
+  have hst := root_step' pc V (rootVal pos b tf depth mv) (rootAB pos k b depth tf mv p st).1
+    (loC pc (accept pc p mv (rootAB pos k b depth tf mv p st).1).alpha (accept pc p mv (rootAB pos k b depth tf mv p st).1).beta)
+    (bstep pc V (rootVal pos b tf depth mv)) (accept pc p mv (rootAB pos k b depth tf mv p st).1).score
+    i4 (value_NS pos _ _ _ _ _ _) hA rfl (by rw [← i1]; rfl)
     (by
       intro h
       rw [← i2]
@@ -123,7 +125,7 @@ theorem rootMove_exact (k : Nat) (b : Board) (hwf : b.WF = true) (pc : Color) (d
   · rw [← i3]
     exact updateCutoff_hi pc p.alpha p.beta _
   · intro m hm
-    rcases accept_best pc p mv (rootAB k b depth tf mv p st).1 with h | h
+    rcases accept_best pc p mv (rootAB pos k b depth tf mv p st).1 with h | h
     · rw [h] at hm; cases hm; exact hmv
     · rw [h] at hm; exact i5 m hm
 
@@ -131,8 +133,8 @@ theorem rootMove_exact (k : Nat) (b : Board) (hwf : b.WF = true) (pc : Color) (d
 
 theorem rootLoop_exact (k : Nat) (b : Board) (hwf : b.WF = true) (pc : Color) (depth : Nat) (tf : ThreeFold) :
     ∀ n g p st V, Good g → (mvsAt g).length < n → (∀ m ∈ mvsAt g, m ∈ mvsOf (MoveGen.legals b)) →
-      RInv b pc V p → (rootLoop k b pc depth tf n g p st).2.2.polls ≤ k →
-      RInv b pc (((mvsAt g).map (rootVal b tf depth)).foldl (bstep pc) V) (rootLoop k b pc depth tf n g p st).1 := by
+      RInv b pc V p → (rootLoop pos k b pc depth tf n g p st).2.2.polls ≤ k →
+      RInv b pc (((mvsAt g).map (rootVal pos b tf depth)).foldl (bstep pc) V) (rootLoop pos k b pc depth tf n g p st).1 := by
   intro n
   induction n with
   | zero => intro g p st V _ hl; omega
@@ -155,7 +157,7 @@ theorem rootLoop_exact (k : Nat) (b : Board) (hwf : b.WF = true) (pc : Color) (d
         simp only [List.head?_cons, List.tail_cons, List.length_cons] at s1 s2 hl
         subst s1
         simp only at hk ⊢
-        cases hr : rootMove k b pc depth tf a p st with
+        cases hr : rootMove pos k b pc depth tf a p st with
         | mk op st' =>
           rw [hr] at hk
           cases op with
@@ -165,7 +167,7 @@ theorem rootLoop_exact (k : Nat) (b : Board) (hwf : b.WF = true) (pc : Color) (d
             omega
           | some p' =>
             simp only at hk ⊢
-            have hI' := rootMove_exact k b hwf pc depth tf a p st p' st' V (hleg a List.mem_cons_self) hI hr
+            have hI' := rootMove_exact pos k b hwf pc depth tf a p st p' st' V (hleg a List.mem_cons_self) hI hr
             have := ih g' p' st' _ s3 (by rw [s2]; omega)
               (by rw [s2]; exact fun m hm => hleg m (List.mem_cons_of_mem _ hm)) hI' hk
             rw [s2] at this
@@ -176,25 +178,25 @@ theorem rootLoop_exact (k : Nat) (b : Board) (hwf : b.WF = true) (pc : Color) (d
 /-- the two root loops and the closing poll of a pass -/
 def passEnd (k : Nat) (b : Board) (pc : Color) (tf : ThreeFold) (depth : Nat) (p1 : Pass) (moves : MoveGen)
     (st : St) : Option Pass × St :=
-  let l1 := rootLoop k b pc depth tf 5000 (moves.setMask (b.raw.color pc.flip)) p1 st
-  let l2 := rootLoop k b pc depth tf 5000 (l1.2.1.setMask BB.full) l1.1 l1.2.2
+  let l1 := rootLoop pos k b pc depth tf 5000 (moves.setMask (b.raw.color pc.flip)) p1 st
+  let l2 := rootLoop pos k b pc depth tf 5000 (l1.2.1.setMask BB.full) l1.1 l1.2.2
   if l2.2.2.polls ≥ k then (none, ⟨l2.2.2.polls + 1, l2.2.2.evals⟩)
   else (some l2.1, ⟨l2.2.2.polls + 1, l2.2.2.evals⟩)
 
 theorem passEnd_eq (k : Nat) (b : Board) (pc : Color) (tf : ThreeFold) (depth : Nat) (p1 : Pass)
     (moves : MoveGen) (st : St) :
     (let moves := moves.setMask (b.raw.color pc.flip)
-     let (p2, moves, st) := rootLoop k b pc depth tf 5000 moves p1 st
+     let (p2, moves, st) := rootLoop pos k b pc depth tf 5000 moves p1 st
      let moves := moves.setMask BB.full
-     let (p3, _, st) := rootLoop k b pc depth tf 5000 moves p2 st
+     let (p3, _, st) := rootLoop pos k b pc depth tf 5000 moves p2 st
      let (done, st) := poll k st
-     if done then (none, st) else (some p3, st)) = passEnd k b pc tf depth p1 moves st := by
+     if done then (none, st) else (some p3, st)) = passEnd pos k b pc tf depth p1 moves st := by
   unfold passEnd
   simp only
-  generalize rootLoop k b pc depth tf 5000 (moves.setMask (b.raw.color pc.flip)) p1 st = l1
+  generalize rootLoop pos k b pc depth tf 5000 (moves.setMask (b.raw.color pc.flip)) p1 st = l1
   obtain ⟨p2, g2, st2⟩ := l1
   simp only
-  generalize rootLoop k b pc depth tf 5000 (g2.setMask BB.full) p2 st2 = l2
+  generalize rootLoop pos k b pc depth tf 5000 (g2.setMask BB.full) p2 st2 = l2
   obtain ⟨p3, g3, st3⟩ := l2
   simp only [poll]
   by_cases hd : st3.polls ≥ k
@@ -202,19 +204,19 @@ theorem passEnd_eq (k : Nat) (b : Board) (pc : Color) (tf : ThreeFold) (depth : 
   · simp only [hd, decide_false, Bool.false_eq_true, if_false]
 
 theorem pass_none_eq (k : Nat) (b : Board) (pc : Color) (tf : ThreeFold) (depth : Nat) (st : St) :
-    pass k b pc tf depth none st = passEnd k b pc tf depth (pass0 pc) (MoveGen.legals b) st := by
+    pass pos k b pc tf depth none st = passEnd pos k b pc tf depth (pass0 pc) (MoveGen.legals b) st := by
   rw [← passEnd_eq]
   unfold pass pass0
   simp only [Bool.false_eq_true, if_false]
 
 theorem pass_some_eq (k : Nat) (b : Board) (pc : Color) (tf : ThreeFold) (depth : Nat) (mv : Move) (st : St) :
-    pass k b pc tf depth (some mv) st =
-      match rootMove k b pc depth tf mv (pass0 pc) st with
+    pass pos k b pc tf depth (some mv) st =
+      match rootMove pos k b pc depth tf mv (pass0 pc) st with
       | (none, st') => (none, st')
-      | (some p, st') => passEnd k b pc tf depth p ((MoveGen.legals b).removeMove mv).1 st' := by
+      | (some p, st') => passEnd pos k b pc tf depth p ((MoveGen.legals b).removeMove mv).1 st' := by
   unfold pass pass0
   simp only
-  cases hr : rootMove k b pc depth tf mv ⟨worst pc, none, .min, .max⟩ st with
+  cases hr : rootMove pos k b pc depth tf mv ⟨worst pc, none, .min, .max⟩ st with
   | mk op st' =>
     cases op with
     | none => simp only [if_true]
@@ -227,18 +229,18 @@ theorem passEnd_exact (k : Nat) (b : Board) (hwf : b.WF = true) (pc : Color) (tf
     (p1 : Pass) (moves : MoveGen) (st : St) (V1 : Score) (p : Pass) (st' : St)
     (h0 : moves.promoIdx = 0) (hlen : moves.moves.length ≤ 18)
     (hleg : ∀ x, Avail moves x → x ∈ mvsOf (MoveGen.legals b)) (hI : RInv b pc V1 p1)
-    (h : passEnd k b pc tf depth p1 moves st = (some p, st')) :
+    (h : passEnd pos k b pc tf depth p1 moves st = (some p, st')) :
     ∃ L : List Move, (∀ x, x ∈ L ↔ Avail moves x) ∧
-      RInv b pc ((L.map (rootVal b tf depth)).foldl (bstep pc) V1) p := by
+      RInv b pc ((L.map (rootVal pos b tf depth)).foldl (bstep pc) V1) p := by
   unfold passEnd at h
   simp only at h
-  have hst1 := rootLoop_struct k b pc depth tf 5000 (moves.setMask (b.raw.color pc.flip)) p1 st
-  have hex1 := rootLoop_exhaust k b pc depth tf 5000 (moves.setMask (b.raw.color pc.flip)) p1 st
-  have hx1 := rootLoop_exact k b hwf pc depth tf 5000 (moves.setMask (b.raw.color pc.flip)) p1 st V1
-  generalize rootLoop k b pc depth tf 5000 (moves.setMask (b.raw.color pc.flip)) p1 st = l1 at h hst1 hex1 hx1
-  have hst2 := rootLoop_struct k b pc depth tf 5000 (l1.2.1.setMask BB.full) l1.1 l1.2.2
-  have hx2 := rootLoop_exact k b hwf pc depth tf 5000 (l1.2.1.setMask BB.full) l1.1 l1.2.2
-  generalize rootLoop k b pc depth tf 5000 (l1.2.1.setMask BB.full) l1.1 l1.2.2 = l2 at h hst2 hx2
+  have hst1 := rootLoop_struct pos k b pc depth tf 5000 (moves.setMask (b.raw.color pc.flip)) p1 st
+  have hex1 := rootLoop_exhaust pos k b pc depth tf 5000 (moves.setMask (b.raw.color pc.flip)) p1 st
+  have hx1 := rootLoop_exact pos k b hwf pc depth tf 5000 (moves.setMask (b.raw.color pc.flip)) p1 st V1
+  generalize rootLoop pos k b pc depth tf 5000 (moves.setMask (b.raw.color pc.flip)) p1 st = l1 at h hst1 hex1 hx1
+  have hst2 := rootLoop_struct pos k b pc depth tf 5000 (l1.2.1.setMask BB.full) l1.1 l1.2.2
+  have hx2 := rootLoop_exact pos k b hwf pc depth tf 5000 (l1.2.1.setMask BB.full) l1.1 l1.2.2
+  generalize rootLoop pos k b pc depth tf 5000 (l1.2.1.setMask BB.full) l1.1 l1.2.2 = l2 at h hst2 hx2
   split at h
   · cases h
   rename_i hlt
@@ -338,38 +340,38 @@ theorem pass_exact' (b : Board) (hwf : b.WF = true) (pc : Color) (tf : ThreeFold
     (bestMv : Option Move) (st st' : St) (p : Pass)
     (hnp : ∀ m ∈ mvsOf (MoveGen.legals b), m.piece = none)
     (hb : ∀ m, bestMv = some m → m ∈ mvsOf (MoveGen.legals b))
-    (h : pass k b pc tf depth bestMv st = (some p, st')) :
-    RInv b pc (best pc ((mvsOf (MoveGen.legals b)).map (rootVal b tf depth))) p := by
+    (h : pass pos k b pc tf depth bestMv st = (some p, st')) :
+    RInv b pc (best pc ((mvsOf (MoveGen.legals b)).map (rootVal pos b tf depth))) p := by
   have hlen : (MoveGen.legals b).moves.length ≤ 18 := Legal.wf_entries_le b hwf
   cases bestMv with
   | none =>
     rw [pass_none_eq] at h
-    obtain ⟨L, hL, hI⟩ := passEnd_exact k b hwf pc tf depth (pass0 pc) (MoveGen.legals b) st (worst pc) p st'
+    obtain ⟨L, hL, hI⟩ := passEnd_exact pos k b hwf pc tf depth (pass0 pc) (MoveGen.legals b) st (worst pc) p st'
       rfl hlen (fun x hx => (avail_legals_iff b x).1 hx) (rinv_pass0 b pc) h
     rw [← best_eq_foldl] at hI
-    rw [best_map_congr pc (rootVal b tf depth) (mvsOf (MoveGen.legals b)) L (fun x => ((hL x).trans (avail_legals_iff b x)).symm)]
+    rw [best_map_congr pc (rootVal pos b tf depth) (mvsOf (MoveGen.legals b)) L (fun x => ((hL x).trans (avail_legals_iff b x)).symm)]
     exact hI
   | some mv =>
     have hmv := hb mv rfl
     rw [pass_some_eq] at h
-    cases hr : rootMove k b pc depth tf mv (pass0 pc) st with
+    cases hr : rootMove pos k b pc depth tf mv (pass0 pc) st with
     | mk op st1 =>
       rw [hr] at h
       cases op with
       | none => simp only [Prod.mk.injEq] at h; cases h.1
       | some p1 =>
         simp only at h
-        have hI1 := rootMove_exact k b hwf pc depth tf mv (pass0 pc) st p1 st1 (worst pc) hmv (rinv_pass0 b pc) hr
-        obtain ⟨L, hL, hI⟩ := passEnd_exact k b hwf pc tf depth p1 ((MoveGen.legals b).removeMove mv).1 st1 _ p st'
+        have hI1 := rootMove_exact pos k b hwf pc depth tf mv (pass0 pc) st p1 st1 (worst pc) hmv (rinv_pass0 b pc) hr
+        obtain ⟨L, hL, hI⟩ := passEnd_exact pos k b hwf pc tf depth p1 ((MoveGen.legals b).removeMove mv).1 st1 _ p st'
           rfl (by
             show (List.map _ _).length ≤ 18
             rw [List.length_map]
             exact hlen)
           (fun x hx => (avail_legals_iff b x).1 (avail_removeMove _ mv x hx)) hI1 h
-        have e : (L.map (rootVal b tf depth)).foldl (bstep pc) (bstep pc (worst pc) (rootVal b tf depth mv)) =
-            best pc ((mv :: L).map (rootVal b tf depth)) := rfl
+        have e : (L.map (rootVal pos b tf depth)).foldl (bstep pc) (bstep pc (worst pc) (rootVal pos b tf depth mv)) =
+            best pc ((mv :: L).map (rootVal pos b tf depth)) := rfl
         rw [e] at hI
-        rw [best_map_congr pc (rootVal b tf depth) (mvsOf (MoveGen.legals b)) (mv :: L) (fun x => by
+        rw [best_map_congr pc (rootVal pos b tf depth) (mvsOf (MoveGen.legals b)) (mv :: L) (fun x => by
           rw [List.mem_cons, hL x]
           constructor
           · intro hx
